@@ -90,6 +90,26 @@ func (b *WriteBuffer) Drain() []RecordBatch {
 	return drained
 }
 
+// Requeue puts batches that were drained for a flush back at the front of the
+// buffer, ahead of anything appended since. It is used when the flush's upload
+// failed: the batches already have offsets assigned, so they must stay in the
+// log (and stay readable) until a later flush stores them.
+func (b *WriteBuffer) Requeue(batches []RecordBatch) {
+	if len(batches) == 0 {
+		return
+	}
+	b.mu.Lock()
+	defer b.mu.Unlock()
+	merged := make([]RecordBatch, 0, len(batches)+len(b.batches))
+	merged = append(merged, batches...)
+	merged = append(merged, b.batches...)
+	b.batches = merged
+	for _, batch := range batches {
+		b.sizeBytes += len(batch.Bytes)
+		b.messageCount += int(batch.MessageCount)
+	}
+}
+
 // RecordsFrom returns the raw bytes of buffered batches needed to serve a read
 // starting at offset, concatenated, non-destructively. A batch is included when
 // its last offset (BaseOffset+LastOffsetDelta) is >= offset, i.e. the batch that
